@@ -27,6 +27,8 @@ def case_strategy(draw):
     spec = draw(rich.frame_strategy())
     d = draw(rich.design())
     n = frames.nrows(spec)
+    # a column no formula uses, with missing values: it has nothing to say about which rows are predicted
+    spec["cols"].append({"name": "remark", "kind": "float", "values": [None if i % 3 == 0 else float(i) for i in range(n)]})
     used = sorted(rich.used_columns(d))
     subsets = []
     for _ in range(draw(st.integers(2, 4))):
